@@ -13,6 +13,7 @@ import random
 import re
 import shutil
 import subprocess
+import sys
 import tempfile
 
 from .. import cbi, core, render, runner, trace_preproc
@@ -203,6 +204,26 @@ def replay_all(ctx, cases, ext=".c", want_trace=0, label="G"):
     return traces, dirs
 
 
+def suite_traces(ctx, dirs):
+    """
+    Run the repository's test suite (a scratch copy of the working tree, hooks on) and return its
+    trace: every finder.find execution of the suite is then validated event by event, which is a far
+    stronger assertion than the totals the tests compare.
+    """
+    work = tempfile.mkdtemp(prefix="suite-", dir=ctx.scratch())
+    dirs.append(work)
+    dst = os.path.join(work, "repo")
+    shutil.copytree(core.repo_path(), dst, ignore=shutil.ignore_patterns(".git", "__pycache__", "docs", "*.egg-info", "cbi.log"))
+    tf = os.path.join(work, "suite.ndjson")
+    env = dict(os.environ, CBI_VERIF="1", CBI_VERIF_TRACE=tf, PYTHONPATH=dst, PYTHONDONTWRITEBYTECODE="1")
+    p = subprocess.run([sys.executable, "-m", "pytest", "-q", "-p", "no:cacheprovider", "-x", "tests"], cwd=dst, env=env,
+                       capture_output=True, text=True, timeout=900)
+    ctx.cov["suite_run"] = (p.stdout.strip().splitlines() or [""])[-1]
+    if not os.path.exists(tf):
+        raise core.MachineryError("the test suite produced no trace (hooks missing?): " + p.stdout[-300:])
+    return [(tf, "suite")]
+
+
 def run(ctx):
     q = ctx.quick
     maxdir, maxnest = (4, 2) if q else (5, 3)
@@ -259,7 +280,8 @@ def run(ctx):
     traces3, dirs3 = replay_all(ctx, simc, want_trace=(10 if q else 5))
     traces += traces3
     dirs += dirs3
-    # ---- same abstract programs as free-form Fortran: selection must be identical (feeds C17 too)
+    # ---- V on the repository's own test suite: its executions, judged by the specification -----
+    traces += suite_traces(ctx, dirs)
     # ---- V: trace validation ---------------------------------------------------------------
     try:
         trace_preproc.validate(ctx, traces)
